@@ -426,6 +426,13 @@ def stepLine (st : DState) (line : String) : DState × String :=
       match Hex.decodeString c with
       | some c => ({ st with kkAgent := { st.kkAgent with chan := c.toList } }, "ok")
       | none => (st, "bad-op")
+  | "kk" :: "docspec" :: toks =>
+      -- what a valid document demands, from the document alone (the right-hand sides of the C09 convergence theorems)
+      match Tok.run pDoc toks with
+      | some d =>
+          let b := fun (x : Bool) => if x then "1" else "0"
+          (st, s!"valid={b d.valid} state={Pipeline.hexStr d.state} policy=wireserver:{b (d.wsMode ≠ KeyKeeper.sDisabled)},imds:{b (d.imdsMode ≠ KeyKeeper.sDisabled)},hostga:{b (d.hostgaMode ≠ KeyKeeper.sDisabled)} ws={showRule (KeyKeeper.itemOf d d.ws)} imds={showRule (KeyKeeper.itemOf d d.imds)} hostga={showRule (KeyKeeper.itemOf d d.hostga)} guid={match d.keyGuid with | some g => Pipeline.hexStr g | none => "-"}")
+      | none => (st, "bad-op")
   | "kk" :: "poll" :: toks =>
       match Tok.run pAnswers toks with
       | some ans =>
